@@ -8,7 +8,8 @@
    without the bound `int64(freq)` wraps and the next batch is queued in the past). *)
 From Coq Require Import List ZArith Bool.
 From SVC Require Import Base.AMap Base.Res Model.Types Model.Handlers Model.EndBlock Model.Step
-  Proofs.Inv Proofs.CtxOps Proofs.ReachRun Proofs.StepSpecs_ctx Proofs.C10Proofs Proofs.TraceCadence.
+  Proofs.Inv Proofs.CtxOps Proofs.ReachRun Proofs.StepSpecs_ctx Proofs.C10Proofs Proofs.TraceCadence
+  Proofs.GapC09 Proofs.GapC06 Proofs.GapC10.
 Import ListNotations.
 Open Scope Z_scope.
 
@@ -258,3 +259,145 @@ Theorem C10_cadence_consecutive : forall cfg s0 c rc0 dt ops H' k,
   H' = height s0 + c_freq rc0.
 Proof. exact TraceCadence.C10_cadence_consecutive. Qed.
 Print Assumptions C10_cadence_consecutive.
+
+(* ------------------------------------------------------------------ *)
+(* Liveness, the first batch end to end, and the bounds read off the log (Proofs/GapC10.v) *)
+
+(* LIVENESS half of the cadence.  Anchor as in C10_cadence, the context repeated.  If it stays
+   Running with the same timeout t and frequency f at every operation boundary of the run and the
+   chain has passed height E - t + f, then batch counter + 1 HAS been started at exactly that
+   height: the start event IS in the log.  (If the consumer runs out of funds, the total is
+   reached, or the context is paused, killed or re-timed, [quiet_run] is false: liveness is
+   exactly "stays running with unchanged timeout and frequency".) *)
+Theorem C10_cadence_live : forall cfg s c rc E ops,
+  wf_cfg cfg -> Reach cfg s ->
+  get c (ctxs s) = Some rc -> get c (expq_h s) = Some E -> c_rep rc = true ->
+  wf_run cfg s ops ->
+  quiet_at c (c_timeout rc) (c_freq rc) s ->
+  quiet_run cfg c (c_timeout rc) (c_freq rc) s ops ->
+  E - c_timeout rc + c_freq rc < height (run cfg s ops) ->
+  exists k, In (EvBatchStart c (c_counter rc + 1) (E - c_timeout rc + c_freq rc) k)
+                (log (run cfg s ops)).
+Proof. exact GapC10.cadence_live. Qed.
+Print Assumptions C10_cadence_live.
+
+(* consecutive starts, existence and exact height together: batch n started by the EndBlock of
+   height H; along a quiet run that has passed H + f, batch n + 1 has been started, and every
+   start of batch n + 1 in the log is at exactly H + f *)
+Theorem C10_cadence_live_consecutive : forall cfg s0 c rc0 dt ops,
+  wf_cfg cfg -> Reach cfg s0 -> height s0 < HEIGHT_BOUND -> 0 <= dt ->
+  In (height s0, c) (newq s0) -> get c (ctxs s0) = Some rc0 ->
+  c_state rc0 = Running -> d5 rc0 = false -> c_rep rc0 = true ->
+  let s1 := end_block cfg s0 dt in
+  has c (expq_h s1) = true ->
+  wf_run cfg s1 ops ->
+  quiet_at c (c_timeout rc0) (c_freq rc0) s1 ->
+  quiet_run cfg c (c_timeout rc0) (c_freq rc0) s1 ops ->
+  height s0 + c_freq rc0 < height (run cfg s1 ops) ->
+  (exists k, In (EvBatchStart c (c_counter rc0 + 2) (height s0 + c_freq rc0) k)
+                (log (run cfg s1 ops)))
+  /\ (forall H' k', In (EvBatchStart c (c_counter rc0 + 2) H' k') (log (run cfg s1 ops)) ->
+        H' = height s0 + c_freq rc0).
+Proof. exact GapC10.cadence_live_consecutive. Qed.
+Print Assumptions C10_cadence_live_consecutive.
+
+(* the first batch, end to end: an accepted call (message or module; [creates o c]) for the
+   context c in block H = height s0, any messages of the same block, then the EndBlock of that
+   block.  At that EndBlock the context still exists with batch counter 0.  If it is still
+   Running, batch 1 is started in THIS EndBlock -- issued, or skipped (n = 0); start event at
+   height H in the log, expiry queued at H + timeout -- unless the consumer cannot pay, in which
+   case (never in super mode) it is Paused with no batch (C06_batch_spec (d) says exactly when).
+   If it is no longer Running (paused or killed by the consumer within the block) this EndBlock
+   starts no batch. *)
+Theorem C10_first_batch_trace : forall cfg s0 o s1 c msgs dt,
+  wf_cfg cfg -> Reach cfg s0 -> wf_op s0 o -> creates o c -> handle cfg s0 o = Ok s1 ->
+  wf_run cfg s1 msgs -> Forall (fun m => forall d, m <> OEndBlock d) msgs ->
+  0 <= dt -> height s0 < HEIGHT_BOUND ->
+  let s2 := run cfg s1 msgs in
+  let s3 := end_block cfg s2 dt in
+  exists rc2, get c (ctxs s2) = Some rc2 /\ c_counter rc2 = 0
+    /\ height s2 = height s0 /\ height s3 = height s0 + 1
+    /\ (c_state rc2 = Running ->
+          (exists n, get c (ctxs s3) = Some (bump rc2 n)
+             /\ get c (expq_h s3) = Some (height s0 + c_timeout rc2)
+             /\ In (EvBatchStart c 1 (height s0) n) (log s3))
+          \/ (get c (ctxs s3) = Some (paused_ctx rc2) /\ get c (expq_h s3) = None
+              /\ c_super rc2 = false))
+    /\ (c_state rc2 <> Running ->
+          match get c (ctxs s3) with
+          | None => c_state rc2 = Completed
+          | Some rc3 => c_counter rc3 = 0 /\ c_state rc3 = c_state rc2
+          end).
+Proof. exact GapC10.first_batch_trace. Qed.
+Print Assumptions C10_first_batch_trace.
+
+(* the first batch, DECIDED: same situation; the context is still due, with the same record,
+   after the expiry phase of that EndBlock, and if its consumer has no other context due in this
+   block the outcome is the one computed by [GapC06.new_outcome] on the post-expiry state sx
+   (C06_end_block_outcome): Paused-for-funds exactly when not super mode and the consumer's
+   balance in sx is below the total price of a sufficient eligible set; otherwise issued (one
+   request per eligible provider, ids (c, 1, H, k), expiry H + timeout, charge = sum of prices)
+   or skipped; nothing if the consumer paused / killed it within the block *)
+Theorem C10_first_batch_decided : forall cfg s0 o s1 c msgs dt,
+  wf_cfg cfg -> Reach cfg s0 -> wf_op s0 o -> creates o c -> handle cfg s0 o = Ok s1 ->
+  wf_run cfg s1 msgs -> Forall (fun m => forall d, m <> OEndBlock d) msgs ->
+  0 <= dt -> height s0 < HEIGHT_BOUND ->
+  let s2 := run cfg s1 msgs in
+  let sx := fold_left (expire_one cfg) (due (expq s2) (height s2)) s2 in
+  let s3 := end_block cfg s2 dt in
+  exists rc2, get c (ctxs s2) = Some rc2 /\ c_counter rc2 = 0 /\ height s2 = height s0
+    /\ get c (ctxs sx) = Some rc2 /\ In (height s2, c) (newq sx)
+    /\ ((forall c' rc', In (height s2, c') (newq sx) -> c' <> c -> get c' (ctxs sx) = Some rc' ->
+                        c_cons rc' <> c_cons rc2) ->
+        let E := filter_providers sx rc2 (c_provs rc2) in
+        let charge := if c_super rc2 then 0 else sum_prices E in
+        let kept := (forall r, rid_ctx r = c -> get r (reqs s3) = get r (reqs sx))
+                    /\ bal s3 (User (c_cons rc2)) = bal sx (User (c_cons rc2)) in
+        match new_outcome sx rc2 with
+        | ONotRunning => get c (ctxs s3) = Some rc2 /\ kept
+        | ORemoved => get c (ctxs s3) = None /\ kept
+        | OSkipped => get c (ctxs s3) = Some (bump rc2 0) /\ kept
+        | OPausedFunds => get c (ctxs s3) = Some (paused_ctx rc2) /\ kept
+        | OIssued =>
+            get c (ctxs s3) = Some (bump rc2 (len E))
+            /\ (forall k p price, nth_error E k = Some (p, price) ->
+                  get (c, 1, height s0, Z.of_nat k) (reqs s3)
+                  = Some (mkReq p (if c_super rc2 then 0 else price) (height s0 + c_timeout rc2) true))
+            /\ bal s3 (User (c_cons rc2)) = bal sx (User (c_cons rc2)) - charge
+            /\ 0 <= charge <= bal sx (User (c_cons rc2))
+        end).
+Proof. exact GapC10.first_batch_decided. Qed.
+Print Assumptions C10_first_batch_decided.
+
+(* every batch start in the log of a reachable state, for a context that still exists: its index
+   is between 1 and the counter; at most the CURRENT total for a repeated context with a positive
+   total; exactly 1 for a one-shot context; and every batch before the current one was completed
+   before (no two batches in flight) *)
+Theorem C10_starts_bounded : forall cfg s c rc n H k,
+  wf_cfg cfg -> Reach cfg s -> get c (ctxs s) = Some rc ->
+  In (EvBatchStart c n H k) (log s) ->
+  1 <= n <= c_counter rc
+  /\ (c_rep rc = true -> 0 < c_total rc -> n <= c_total rc)
+  /\ (c_rep rc = false -> n = 1)
+  /\ (n < c_counter rc -> In (EvBatchDone c n) (log s)).
+Proof. exact GapC10.starts_bounded. Qed.
+Print Assumptions C10_starts_bounded.
+
+(* satisfiable: by C10_cadence_live, batch 2 of the repeated context c2 (timeout 5, frequency 10,
+   batch 1 started at height 1) is in the log at height 11 once the chain is at height 12 *)
+Theorem C10_cadence_live_example :
+  exists k, In (EvBatchStart BatchEx.BEx.c2 2 11 k)
+              (log (run BatchEx.BEx.cfg0 BatchEx.BEx.s_b TraceCadence.ExC.ops_tail)).
+Proof. exact GapC10.ExL.cadence_live_applies. Qed.
+Print Assumptions C10_cadence_live_example.
+
+Theorem C10_first_batch_trace_example :
+  Reach BatchEx.BEx.cfg0 GapC10.ExL.s_pre /\ wf_op GapC10.ExL.s_pre GapC10.ExL.o_call
+  /\ creates GapC10.ExL.o_call BatchEx.BEx.c1
+  /\ (exists s1, handle BatchEx.BEx.cfg0 GapC10.ExL.s_pre GapC10.ExL.o_call = Ok s1
+        /\ wf_run BatchEx.BEx.cfg0 s1 GapC10.ExL.msgs1
+        /\ end_block BatchEx.BEx.cfg0 (run BatchEx.BEx.cfg0 s1 GapC10.ExL.msgs1) 1 = BatchEx.BEx.s_b)
+  /\ Forall (fun m => forall d, m <> OEndBlock d) GapC10.ExL.msgs1
+  /\ height GapC10.ExL.s_pre < HEIGHT_BOUND.
+Proof. exact GapC10.ExL.first_batch_hyps. Qed.
+Print Assumptions C10_first_batch_trace_example.
